@@ -20,6 +20,7 @@ EXPLANATION = (
     "body_format == Beve in the same body or at every call site of its private helper; require_body_format returns Ok only "
     "when the header's code equals the expected one."
     " (size-writer-pairs, closed over call sites) at every call of write_message_streaming the declared body length and the closure's one emission are a documented pair over the same value."
+    ' In every client entry point named *typed_slice* the feasible builder calls - judged inside the body closure against the flag value the entry point captures - are body_aligned_typed_slice exactly for the aligned-named ones.'
 )
 ASSUMPTIONS = ["beve's size functions return the number of bytes its writer functions emit for the same arguments",
                "element-type rejection is performed by beve's readers"]
@@ -309,6 +310,53 @@ def run(facts, R):
         R.check(private and allg, "format-guard", hp, "helper reached only under body_format == Beve",
                 "%s reads a bulk slice without a format guard and is %s / has an unguarded caller" % (hp, "private" if private else "public"), hb.span,
                 "%d call site(s), all on the Beve arm" % len(callers))
+    # (the aligned entry points send the aligned form) a client function named `*typed_slice_aligned*` builds its body with
+    # body_aligned_typed_slice, a plain `*typed_slice*` one with body_typed_slice - also when both forms share one helper and a flag decides:
+    # a builder call inside a closure is feasible only if the captured flag, as the entry point sets it, agrees with the branch it sits on
+    n_ep = 0
+    for p_, b_ in sorted(facts.bodies.items()):
+        if p_.split("::")[0] not in ("client", "async_client", "websocket_client") or "::tests::" in p_ or "{closure" in p_.split("::{inl#")[0].replace("::{closure#0}", ""):
+            continue
+        last_ = p_.replace("::{closure#0}", "").rsplit("::", 1)[-1]
+        if "typed_slice" not in last_ or not last_.startswith(("call_", "notify_", "send_")):
+            continue
+        want_aligned = "aligned" in last_
+        bs_ = Sym(b_)
+        feasible = []
+        fam = [b_] + facts.children(p_)
+        caps = {}
+        for fb_ in fam:
+            fbs_ = Sym(fb_) if fb_ is not b_ else bs_
+            for i_, bl_ in enumerate(fb_.blocks):
+                for st_ in bl_["stmts"]:
+                    if st_["k"] == "assign" and st_["rv"].get("agg") in ("closure", "coroutine"):
+                        v_ = fbs_.rvalue(st_["rv"])
+                        caps[st_["rv"]["def"]] = dict(v_[3])
+        for fb_ in fam:
+            fbs_ = Sym(fb_) if fb_ is not b_ else bs_
+            cap_ = caps.get(fb_.path, {})
+            for i_, t_ in fb_.calls():
+                nm_ = t_["callee"]["name"]
+                if nm_ not in ("body_aligned_typed_slice", "body_typed_slice") or "MessageBuilder" not in t_["callee"]["path"]:
+                    continue
+                ok_here = True
+                for f_ in facts_at(fb_, fbs_, facts, i_):
+                    e_ = f_["expr"]
+                    if e_[0] == "field" and e_[1][0] == "arg" and e_[1][1] == 1 and e_[2] in cap_ and isinstance(f_["val"], bool):
+                        cv_ = cap_[e_[2]]
+                        if cv_[0] == "const" and isinstance(cv_[1], (bool, int)) and bool(cv_[1]) != f_["val"]:
+                            ok_here = False
+                if ok_here:
+                    feasible.append((nm_, t_.get("span")))
+        if not feasible:
+            continue
+        n_ep += 1
+        wrong = [x for x in feasible if (x[0] == "body_aligned_typed_slice") != want_aligned]
+        R.check(not wrong, "size-writer-pairs", p_, "%s entry point builds the %s form" % ("aligned" if want_aligned else "plain", "aligned" if want_aligned else "packed"),
+                "%s can build its body with %s: a route that borrows the aligned form never sees it (or a plain route is sent the aligned form)" % (last_, wrong[0][0] if wrong else ""),
+                wrong[0][1] if wrong else b_.span, "only %s reachable" % ("body_aligned_typed_slice" if want_aligned else "body_typed_slice"))
+    R.floor("size-writer-pairs", n_ep, 4, "typed-slice entry points of the clients")
+
     # (padding-base, caller side) the aligned form pads for 48 + len(query) *as it is when the body is built*: the clients
     # hand the body closure a builder whose query is already set, and nothing changes the query afterwards
     n_bf = 0
